@@ -192,6 +192,11 @@ pub fn histories(log: &[(std::thread::ThreadId, Event)], st: &mut Stats) -> Vec<
                     );
                 }
                 if let Some(p) = prev {
+                    // generator quality: how often the hand-over has to settle an exact size tie in favour of a
+                    // trial of the second evaluator (same size, lower filter number than the result in hand)
+                    if h.finished.iter().any(|((_, f), v)| v.3 && v.0 + v.1 == p.2 && v.2 == p.3 && *f < p.1 as u8) {
+                        st.count("handoff_tie_lower_filter_completed");
+                    }
                     if (p.2, p.3, p.1 as u8) < (r.2, r.3, r.1 as u8) {
                         st.count("handoff_result_worse_than_previous");
                         st.fail(
@@ -325,7 +330,47 @@ fn tie_case(rng: &mut Rng) -> Case {
     opts.filter = (0..10u8).filter(|_| rng.chance(2, 3)).collect();
     opts.fast_evaluation = false;
     opts.force = rng.bool();
+    // a third of them through the fast path as the final round (main deflater = the evaluation deflater): ties then
+    // have to be settled across the hand-over between the two evaluators as well
+    if rng.chance(1, 3) {
+        opts.fast_evaluation = true;
+        opts.deflate = Ok(*rng.choose(&[1u8, 3, 5, 6, 7]));
+        return Case { img, class: "tie-image-fast".into(), enc, input, opts };
+    }
     Case { img, class: "tie-image".into(), enc, input, opts }
+}
+
+/// Small images whose rows are arithmetic progressions: the delta filters and the heuristic strategies then often
+/// produce byte-identical rows, i.e. exact size ties between a fixed filter and Bigrams - the situation in which the
+/// hand-over between the fast path's two evaluators has to apply the tie rule
+fn gradient_tie_case(rng: &mut Rng) -> Case {
+    use crate::img::*;
+    let ct = *rng.choose(&[0u8, 0, 2, 4]);
+    let depth = 8;
+    let (w, h) = (rng.range(6, 18) as u32, rng.range(2, 7) as u32);
+    let c = channels(ct);
+    let mut samples = Vec::with_capacity((w * h) as usize * c);
+    let step: Vec<u16> = (0..c).map(|_| rng.range(1, 9) as u16).collect();
+    let same_rows = rng.bool();
+    let base0: Vec<u16> = (0..c).map(|_| rng.byte() as u16).collect();
+    for y in 0..h {
+        let base: Vec<u16> = if same_rows { base0.clone() } else { (0..c).map(|k| (base0[k] + (y as u16) * rng.range(0, 40) as u16) % 256).collect() };
+        for x in 0..w {
+            for k in 0..c {
+                samples.push((base[k] + step[k] * x as u16) % 256);
+            }
+        }
+    }
+    let g = Grid { w, h, ct, depth, palette: vec![], trns: None, samples };
+    let img = g.pack(false);
+    let enc = EncOpts { level: 0, idat_parts: 1, ..Default::default() };
+    let input = img.encode_png(rng, &enc);
+    let mut opts = gen_opts(rng, Profile::Lossless, false);
+    opts.filter = (0..10u8).filter(|_| rng.chance(4, 5)).collect();
+    opts.fast_evaluation = true;
+    opts.deflate = Ok(*rng.choose(&[1u8, 3, 5, 6, 7]));
+    opts.interlace = Some(0);
+    Case { img, class: "gradient-tie-fast".into(), enc, input, opts }
 }
 
 /// Cases for the slow compressor: few colours kept at a high colour depth (reductions off), where Zopfli and
@@ -378,6 +423,9 @@ pub fn corr(ctx: &mut Ctx) {
         } else if rng.chance(1, 6) {
             st.count("zopfli_cases");
             zopfli_case(&mut rng)
+        } else if rng.chance(1, 5) {
+            st.count("gradient_tie_cases");
+            gradient_tie_case(&mut rng)
         } else {
             gen_case(&mut rng, Profile::Any, ctx.tier_thorough, 17)
         };
